@@ -2,6 +2,7 @@
 from vlib.tok import s as S
 from checks.storegen import World, PLAIN, BLOCK_KINDS, REL_OF, with_hdump
 ID = 'C04'
+TECHNIQUE = 'Lean 4 proof over a hand-written store model + a table translated from the source on every run (which accessor every by-entity overload forwards: all go by id) + differential correspondence (trace validation) with the built library'
 THEOREMS = ['Nix.ByEntity.by_entity_overloads_forward_the_id', 'Nix.ByEntity.modelled_overloads_are_tabulated', 'Nix.St.deleted_handle_reports_invalid', 'Nix.St.deleted_handle_refused', 'Nix.St.unlinkAll_refCount', 'Nix.St.unlinkAll_frame', 'Nix.St.unlinkAll_no_incoming', 'Nix.St.unlinkAll_unreachable', 'Nix.St.unlinkAll_reach_mono', 'Nix.St.removeAllLinks_spec', 'Nix.St.deleteNested_unlinks', 'Nix.St.deleteNested_victim', 'Nix.St.removeEntity_spec', 'Nix.St.deleteBlock_spec', 'Nix.St.delete_only_unlinks', 'Nix.St.removeEntity_no_dangling', 'Nix.St.unlink_frame', 'Nix.St.deleteNested_fuel_indep', 'Nix.St.deleteSection_fuel_adequate', 'Nix.St.deleteSubSource_fuel_adequate', 'Nix.St.deleteBlockSource_fuel_adequate', 'Nix.St.delete_wt']
 LEAN_MODULES = ['NixModel.Props.C04ByEntity', 'NixModel.Gen.ByEntity', 'NixModel.Props.C04', 'NixModel.Proofs.DeleteFuel', 'NixModel.Proofs.RolesHistory']
 RULE = ('random entity graphs (every kind, one target linked from many holders: tag / multi-tag references, positions / extents, feature data, '
